@@ -312,7 +312,11 @@ func (o *FilterOptimizer) optimizeLtLteExpr(e *BinaryOpExpr) *ScanType {
 	// return RANGE scan with end
 	if field == KeyKW && key != nil {
 		if string(key) == "" {
-			// key < '' or key <= '' means no keys should be scan
+			if e.Op == Lte || e.Op == Gte {
+				// key <= '' (or '' >= key) is the empty key and nothing else
+				return &ScanType{MGET, [][]byte{key}}
+			}
+			// key < '' means no keys should be scan
 			return &ScanType{EMPTY, nil}
 		}
 		return &ScanType{RANGE, [][]byte{nil, key}}
